@@ -79,7 +79,7 @@ def optNat : Option Nat → String
   | none => "n" | some v => toString v
 
 def showDecoded (d : Decoded) : String :=
-  s!"ok {showClass d.cls} {showMethod d.method} {hex d.tx} {optAddr d.mapped} {optAddr d.relayed} {optAddr d.peer} {optNat d.errorCode} {optBytes d.realm} {optBytes d.nonce} {optBytes d.data} {b01 d.useCandidate} {optNat d.lifetime}"
+  s!"ok {showClass d.cls} {showMethod d.method} {hex d.tx} {optAddr d.mapped} {optAddr d.relayed} {optAddr d.peer} {optNat d.errorCode} {optBytes d.realm} {optBytes d.nonce} {optBytes d.data} {b01 d.useCandidate} {optNat d.lifetime} {optNat d.priority}"
 
 def showErr : DecErr → String
   | .tooShort => "err short" | .lengthMismatch => "err length" | .badMethod => "err method"
@@ -252,6 +252,14 @@ def handle (stream : String) (args : List String) : String :=
     match unhex data with
     | some d => hex (tcpWire d)
     | none => "bad-args"
+  | "tcprecv", [buflen, data] =>
+    match buflen.toNat?, unhex data with
+    | some n, some d =>
+      match tcpRecv n d with
+      | .msg m _ => s!"ok {hex m}"
+      | .tooBig => "toobig"
+      | .needMore => "needmore"
+    | _, _ => "bad-args"
   | "tcpsplit", [data] =>
     match unhex data with
     | some d =>
@@ -325,8 +333,27 @@ def handle (stream : String) (args : List String) : String :=
     let locals := (cs.filter (·.1)).map (·.2)
     let remotes := (cs.filter (fun c => !c.1)).map (·.2)
     let r : IcePrio.Role := if role = "controlling" then .controlling else .controlled
-    let order := IcePairs.checkOrder r (prefer = "1") locals remotes
-    if order.isEmpty then "-" else ";".intercalate (order.map (fun p => s!"{p.1.id}>{p.2.id}"))
+    -- `prefer` = `<0|1>` or `<0|1>,<state is Checking 0|1>,<a pair is already selected 0|1>`
+    let (pf, checking, hasSel) : Bool × Bool × Bool := match fields prefer with
+      | [p, c, h] => (decide (p = "1"), decide (c = "1"), decide (h = "1"))
+      | _ => (decide (prefer = "1"), true, false)
+    match IcePairs.checkPass checking hasSel r pf locals remotes with
+    | none => "-"
+    | some order => if order.isEmpty then "-" else ";".intercalate (order.map (fun p => s!"{p.1.id}>{p.2.id}"))
+  | "select", role :: pn :: items =>
+    -- items: `S|N,lid,lprio,ltcp,rid,rprio` — successful checks (S) / successful nominations (N) in arrival order
+    let parseP (t : String) : Option (Bool × IcePairs.PPair) :=
+      match fields t with
+      | [k, lid, lp, ltcp, rid, rp] => do
+        some (k = "S", (⟨← lid.toNat?, ← lp.toNat?, ltcp = "1", 1, false, true, false, true, false⟩,
+                         ⟨← rid.toNat?, ← rp.toNat?, ltcp = "1", 1, false, true, false, true, false⟩))
+      | _ => none
+    let ps := items.filterMap parseP
+    if ps.length ≠ items.length then "bad-args" else
+    let r : IcePrio.Role := if role = "controlling" then .controlling else .controlled
+    match IcePairs.conclude r ((ps.filter (·.1)).map (·.2)) ((ps.filter (fun c => !c.1)).map (·.2)) (pn = "1") with
+    | none => "-"
+    | some o => s!"{o.selected.1.id}>{o.selected.2.id} nc={match o.nominationComplete with | none => "-" | some true => "true" | some false => "false"} state={if o.connected then "connected" else "failed"}"
   | "agentmsg", [kind, tx, lu, ru, rpw, role, prio, tie, nom] =>
     match unhex tx, unhex lu, unhex ru, unhex rpw, prio.toNat?, tie.toNat? with
     | some tx, some lu, some ru, some rpw, some prio, some tie =>
